@@ -457,11 +457,22 @@ struct Value {
             data.clear();
             return;
         }
-        // they are now prefixed with a 0x00; rip that out
+        // version byte + 20 byte hash: pay-to-pubkey-hash (0x00, testnet 0x6f) or pay-to-script-hash (0x05, testnet 0xc4); anything else
+        // (a WIF key, another payload size) is not an address this can turn into a script
+        const uint8_t version = data[0];
+        if (data.size() != 21 || (version != 0x00 && version != 0x6f && version != 0x05 && version != 0xc4)) {
+            fprintf(stderr, "not a pay-to-pubkey-hash or pay-to-script-hash address (version byte 0x%02x, %zu byte payload)\n", version, data.size() - 1);
+            data.clear();
+            return;
+        }
         data.erase(data.begin());
         // wrap in appropriate script fluff
         CScript s;
-        s << OP_DUP << OP_HASH160 << data << OP_EQUALVERIFY << OP_CHECKSIG;
+        if (version == 0x05 || version == 0xc4) {
+            s << OP_HASH160 << data << OP_EQUAL;
+        } else {
+            s << OP_DUP << OP_HASH160 << data << OP_EQUALVERIFY << OP_CHECKSIG;
+        }
         data.clear();
         insert(data, s);
     }
